@@ -57,6 +57,9 @@ def run_case(ctx, S, a, b, m, tag, reuse=None):
         else:
             s = S.TimeScale().domain([a, b])
         _REUSE["scale"] = s
+        if hash((b, a)) % 4 == 0:
+            s.range([0, [100, 960, 2400, 10000, -3000][hash((a, b)) % 5]])
+            ctx.path("with-an-output-range")
         if m is not None and hash((a, b, m)) % 12 == 0:
             m = float(m)  # a count given as a float with an integral value is the same count
             ctx.path("float-count")
